@@ -849,6 +849,33 @@ def rule_simplify_wiring(ctx: Ctx, rule: str = "simplify-wiring") -> None:
         ctx.violation(rule, key, construct, "outcomes %s" % sorted(outs), where=fi.where)
 
 
+def _subst(v, pred, repl):
+    if pred(v):
+        return repl
+    if isinstance(v, tuple):
+        return tuple(_subst(x, pred, repl) for x in v)
+    return v
+
+
+def _comp_element(v):
+    """If v denotes a list obtained from a base list by (nested) comprehensions without filters - possibly wrapped in
+    np.array / list - return (element expression in terms of the base list's iteration element, base list)."""
+    if isinstance(v, tuple) and v and v[0] == "call" and str(v[1]) in ("numpy.array", "numpy.asarray", "list") and len(v[2]) == 1:
+        return _comp_element(v[2][0])
+    if isinstance(v, tuple) and v and v[0] == "listcomp":
+        elt, gens = v[1], v[2]
+        if len(gens) != 1 or gens[0][1]:
+            return None
+        it = gens[0][0]
+        inner = _comp_element(it)
+        if inner is None:
+            return elt, it
+        e_in, base = inner
+        isvar = lambda y: isinstance(y, tuple) and len(y) == 4 and y[0] == "iter" and y[1] == it  # noqa: E731
+        return _subst(elt, isvar, e_in), base
+    return None
+
+
 def rule_polytope_roundtrip(ctx: Ctx, rule: str = "matrix-roundtrip") -> None:
     """C07(a): termlist_to_polytope builds (A, b) from its first argument's terms and (A_ctx, b_ctx) from the
     second's, coefficient i <-> variable i; polytope_to_termlist maps row i / column j back to the same variables."""
@@ -866,8 +893,15 @@ def rule_polytope_roundtrip(ctx: Ctx, rule: str = "matrix-roundtrip") -> None:
             why = ""
             for p in ps:
                 el = p.value[1][i]
-                if i == 3 and not mentions(el, lambda x: x[0] == "list" and len(x) == 3 and not x[1] is None and False):
-                    pass
+                # comprehension form: the list is a (possibly nested) comprehension over <src>.terms
+                ce = _comp_element(el)
+                if ce is not None:
+                    arg, base = ce
+                    if base == ("attr", ("param", src), "terms") and arg[0] == "item" and arg[2] == item and arg[1][0] == "call" and arg[1][1].endswith("term_to_polytope") and arg[1][2] and arg[1][2][0][0] == "iter" and arg[1][2][0][1] == base:
+                        continue
+                    okc = False
+                    why = "built by a comprehension whose element is %s over %s" % (show(arg, 4), show(base, 3))
+                    continue
                 # appended values per list object
                 found = False
                 for e in p.events:
